@@ -43,7 +43,7 @@ CASE_TIMEOUT = {'quick': 180, 'thorough': 400}
 
 
 # appended to RULE in the evidence (vlib/runner.py)
-RULE_ADDENDUM = "Added in round 5: controls and rules that change a junction's minimum / required pressure during the run (aimed, after a scouting run, at the pressure the junction sees)."
+RULE_ADDENDUM = "Added in round 5: controls and rules that change a junction's minimum / required pressure during the run (aimed, after a scouting run, at the pressure the junction sees). Round 6: isolation schedules in 40 % of the network runs, the first parameter control fires while its junction is isolated."
 
 def n_cases(tier):
     return 200 if tier == 'quick' else 12000
